@@ -117,11 +117,13 @@ impl Finder {
 pub enum ChannelMsg { Data { data: CryptoVec }, Eof, Other }
 // russh::Channel: `budget` = number of channel messages the peer/session will still deliver (ghost, arbitrary);
 // wait() == None  <=>  the channel is closed (tokio mpsc recv on a closed channel: None now and forever).
-pub struct Channel { pub received: Ghost<Seq<u8>>, pub budget: Ghost<nat>, pub closed: Ghost<bool> }
+pub struct Channel { pub received: Ghost<Seq<u8>>, pub budget: Ghost<nat>, pub closed: Ghost<bool>, pub eof_seen: Ghost<bool> }
 impl Channel {
     #[verifier::external_body]
     pub fn wait(&mut self) -> (r: Option<ChannelMsg>)
-        ensures match r {
+        // after CHANNEL_EOF the peer sends nothing more, and a half-closing peer never closes: waiting again may block forever
+        requires !old(self).eof_seen@,                                                        // OBL:C07.ssh.no_wait_after_eof
+        ensures final(self).eof_seen@ == (old(self).eof_seen@ || r matches Some(ChannelMsg::Eof)), match r {
             Some(ChannelMsg::Data { data }) => final(self).received@ == old(self).received@ + data@ && old(self).budget@ > 0 && final(self).budget@ == old(self).budget@ - 1 && final(self).closed@ == old(self).closed@ && !old(self).closed@,
             Some(_) => final(self).received@ == old(self).received@ && old(self).budget@ > 0 && final(self).budget@ == old(self).budget@ - 1 && final(self).closed@ == old(self).closed@ && !old(self).closed@,
             None => final(self).received@ == old(self).received@ && final(self).budget@ == old(self).budget@ && final(self).closed@,
@@ -129,7 +131,15 @@ impl Channel {
     { unimplemented!() }
     #[verifier::external_body]
     pub fn data(&mut self, d: &[u8]) -> (r: Result<(), SshError>)
-        ensures final(self).received@ == old(self).received@, final(self).budget@ == old(self).budget@, final(self).closed@ == old(self).closed@
+        ensures final(self).received@ == old(self).received@, final(self).budget@ == old(self).budget@, final(self).closed@ == old(self).closed@, final(self).eof_seen@ == old(self).eof_seen@
+    { unimplemented!() }
+    #[verifier::external_body]
+    pub fn eof(&mut self) -> (r: Result<(), SshError>)
+        ensures final(self).received@ == old(self).received@, final(self).budget@ == old(self).budget@, final(self).closed@ == old(self).closed@, final(self).eof_seen@ == old(self).eof_seen@
+    { unimplemented!() }
+    #[verifier::external_body]
+    pub fn close(&mut self) -> (r: Result<(), SshError>)
+        ensures final(self).received@ == old(self).received@, final(self).budget@ == old(self).budget@, final(self).eof_seen@ == old(self).eof_seen@
     { unimplemented!() }
 }
 // tokio::sync::mpsc::Receiver<Bytes> (outgoing queue): `budget` = messages local senders will still enqueue
@@ -160,13 +170,15 @@ pub fn nondet_unreachable() requires false { unimplemented!() }
 //@extract id=ssh_pump file=netconf/src/transport/ssh.rs impl=/impl Ssh/ fn=connect block=/tokio::spawn\(async move / rules=R2,R3,R4,R14,R17 consts=MARKER
 //@sig pub fn ssh_pump(mut out_queue_rx: OutRx, channel: &mut Channel, in_queue_tx: &mut InTx) -> (res: Result<(), Error>)
 //@contract
-    requires old(channel).received@ == Seq::<u8>::empty(),
+    requires old(channel).received@ == Seq::<u8>::empty(), !old(channel).eof_seen@,
     ensures
         // C06 (SSH): whenever the pump stops without a queue/transport error, the session layer has been handed exactly
         // the delimiter-terminated messages of the received byte stream, each once, complete and in order, and no
         // complete message is left undelivered in the pump's buffer (`rest` has no delimiter).
         res is Ok ==> exists|rest: Seq<u8>| #[trigger] delivered_exactly(old(in_queue_tx).queue@, final(in_queue_tx).queue@, rest, final(channel).received@) && !has_marker(rest),  // OBL:C06.ssh.delivered_exactly_at_exit
 //@loop 1
+        invariant_except_break
+            !channel.eof_seen@,                                                           // OBL:C07.ssh.leaves_loop_on_eof
         invariant
             delivered_exactly(old_q, in_queue_tx.queue@, in_buf@, channel.received@),      // OBL:C06.ssh.delivered_exactly
             !has_marker(in_buf@),                                                         // OBL:C06.ssh.no_complete_message_left_in_buffer
